@@ -42,3 +42,619 @@ Definition ev_wf (e : Z * list Z) : Prop :=
   | (1, [u; n]) => 0 <= u < 2 ^ 64 /\ 0 <= n <= 64
   | _ => False
   end.
+
+(* ---------- bit lists as numbers (most significant bit first) ---------- *)
+Definition bval (l : list bool) : Z := Z.of_N (bits2N l).
+
+Lemma bits2N_snoc l b : bits2N (l ++ [b]) = ((if b then 1 else 0) + 2 * bits2N l)%N.
+Proof. unfold bits2N. rewrite rev_app_distr. reflexivity. Qed.
+
+Lemma bval_nil : bval [] = 0.
+Proof. reflexivity. Qed.
+
+Lemma bval_snoc l b : bval (l ++ [b]) = 2 * bval l + Z.b2z b.
+Proof. unfold bval. rewrite bits2N_snoc. destruct b; cbn [Z.b2z]; lia. Qed.
+
+Lemma bval_app p : forall q, bval (p ++ q) = bval p * 2 ^ Z.of_nat (length q) + bval q.
+Proof.
+  intros q. induction q as [|b q IH] using rev_ind.
+  - rewrite app_nil_r, bval_nil. cbn [length]. change (2 ^ Z.of_nat 0) with 1. lia.
+  - rewrite app_assoc, !bval_snoc, IH, app_length. cbn [length].
+    replace (Z.of_nat (length q + 1)) with (Z.succ (Z.of_nat (length q))) by lia.
+    rewrite Z.pow_succ_r by lia. lia.
+Qed.
+
+Lemma bval_range l : 0 <= bval l < 2 ^ Z.of_nat (length l).
+Proof.
+  induction l as [|b l IH] using rev_ind.
+  - rewrite bval_nil. cbn [length]. change (2 ^ Z.of_nat 0) with 1. lia.
+  - rewrite bval_snoc, app_length. cbn [length].
+    replace (Z.of_nat (length l + 1)) with (Z.succ (Z.of_nat (length l))) by lia.
+    rewrite Z.pow_succ_r by lia. destruct b; cbn [Z.b2z]; lia.
+Qed.
+
+Lemma bval_zeros k : bval (zeros k) = 0.
+Proof.
+  induction k as [|k IH]; [reflexivity|].
+  unfold zeros in *. replace (S k) with (k + 1)%nat by lia. rewrite repeat_app. cbn [repeat].
+  rewrite bval_snoc, IH. reflexivity.
+Qed.
+
+Lemma zeros_length k : length (zeros k) = k.
+Proof. apply repeat_length. Qed.
+
+Lemma bval_pad p k : bval (p ++ zeros k) = bval p * 2 ^ Z.of_nat k.
+Proof. rewrite bval_app, bval_zeros, zeros_length. lia. Qed.
+
+Lemma bval_cons b l : bval (b :: l) = Z.b2z b * 2 ^ Z.of_nat (length l) + bval l.
+Proof. change (b :: l) with ([b] ++ l). rewrite bval_app. destruct b; reflexivity. Qed.
+
+Lemma bval_to_N l : Z.to_N (bval l) = bits2N l.
+Proof. unfold bval. apply N2Z.id. Qed.
+
+Lemma bval_zbits k z : bval (zbits k z) = z mod 2 ^ Z.of_nat k.
+Proof.
+  unfold bval, zbits.
+  assert (Hp : 0 <= z mod 2 ^ Z.of_nat k < 2 ^ Z.of_nat k) by (apply Z.mod_pos_bound; apply Z.pow_pos_nonneg; lia).
+  rewrite bits2N_N2bits_small.
+  - rewrite Z2N.id by lia. reflexivity.
+  - apply N2Z.inj_lt. rewrite Z2N.id by lia. rewrite N2Z.inj_pow. rewrite nat_N_Z. change (Z.of_N 2) with 2. lia.
+Qed.
+
+(* ---------- or of disjoint bit ranges is addition ---------- *)
+Lemma lor_add a m b : 0 <= m -> 0 <= b < 2 ^ m -> Z.lor (a * 2 ^ m) b = a * 2 ^ m + b.
+Proof.
+  intros Hm Hb. rewrite <- Z.lxor_lor, <- Z.add_nocarry_lxor; try reflexivity.
+  all: apply Z.bits_inj'; intros n Hn; rewrite Z.land_spec, Z.bits_0;
+    destruct (Z.ltb_spec n m) as [Hlt|Hge].
+  1,3: rewrite Z.mul_pow2_bits_low by exact Hlt; reflexivity.
+  all: replace b with (b mod 2 ^ m) by (apply Z.mod_small; exact Hb);
+    rewrite Z.mod_pow2_bits_high by lia; apply andb_false_r.
+Qed.
+
+Lemma wrap_u8_small z : 0 <= z < 256 -> wrap_u8 z = z.
+Proof. intros H. unfold wrap_u8, wrap_u. change (2 ^ 8) with 256. apply Z.mod_small. exact H. Qed.
+
+(* ---------- pack on whole bytes followed by a remainder ---------- *)
+Lemma pack_aux_fuel : forall f1 f2 bs, (length bs <= f1)%nat -> (length bs <= f2)%nat ->
+  pack_aux f1 bs = pack_aux f2 bs.
+Proof.
+  induction f1 as [|f1 IH]; intros f2 bs H1 H2.
+  - destruct bs; [|cbn [length] in H1; lia]. destruct f2; reflexivity.
+  - destruct bs as [|b bs]; [destruct f2; reflexivity|].
+    destruct f2 as [|f2]; [cbn [length] in H2; lia|].
+    cbn [pack_aux]. f_equal. apply IH; rewrite skipn_length; cbn [length] in *; lia.
+Qed.
+
+Lemma pack_aux_S f b l :
+  pack_aux (S f) (b :: l) = bits2N (firstn 8 ((b :: l) ++ zeros 7)) :: pack_aux f (skipn 8 (b :: l)).
+Proof. reflexivity. Qed.
+
+Lemma pack_chunk c r : length c = 8%nat -> pack (c ++ r) = bits2N c :: pack r.
+Proof.
+  intros Hc. unfold pack.
+  rewrite (pack_aux_fuel (length (c ++ r)) (S (length (c ++ r)))) by lia.
+  destruct (c ++ r) as [|b l] eqn:E; [apply (f_equal (@length bool)) in E; rewrite app_length, Hc in E; cbn [length] in E; lia|].
+  rewrite pack_aux_S. rewrite <- E. rewrite <- app_assoc.
+  rewrite firstn_app, Hc. replace (8 - 8)%nat with 0%nat by lia. rewrite firstn_O, app_nil_r.
+  rewrite <- Hc at 1. rewrite firstn_all.
+  rewrite skipn_app, Hc. replace (8 - 8)%nat with 0%nat by lia. rewrite <- Hc at 1. rewrite skipn_all.
+  rewrite skipn_O. change ([] ++ r) with r. f_equal. apply pack_aux_fuel; rewrite ?app_length; lia.
+Qed.
+
+Lemma pack_chunks cs r : Forall (fun c => length c = 8%nat) cs ->
+  pack (concat cs ++ r) = map bits2N cs ++ pack r.
+Proof.
+  induction 1 as [|c cs Hc _ IH]; [reflexivity|].
+  cbn [concat map app]. rewrite <- app_assoc, pack_chunk by exact Hc. rewrite IH. reflexivity.
+Qed.
+
+Lemma firstn_zeros : forall n k, (k <= n)%nat -> firstn k (zeros n) = zeros k.
+Proof.
+  induction n as [|n IH]; intros k H; destruct k as [|k]; try reflexivity; [lia|].
+  unfold zeros in *. cbn [repeat firstn]. f_equal. apply IH. lia.
+Qed.
+
+Lemma pack_short p : (length p < 8)%nat ->
+  pack p = match p with [] => [] | _ => [bits2N (p ++ zeros (8 - length p))] end.
+Proof.
+  intros H. destruct p as [|b p]; [reflexivity|]. set (q := b :: p) in *.
+  unfold pack. assert (Hq : length q = S (length p)) by reflexivity. rewrite Hq at 1.
+  unfold q at 1. rewrite pack_aux_S. fold q.
+  rewrite skipn_all2 by lia. replace (pack_aux (length p) []) with (@nil N) by (destruct (length p); reflexivity).
+  f_equal. f_equal. rewrite firstn_app. rewrite firstn_all2 by lia. f_equal. apply firstn_zeros. lia.
+Qed.
+
+(* ---------- the writer's state as the list of pending bits ---------- *)
+Definition bw_holds (st : Z * Z) (p : list bool) : Prop :=
+  (length p < 8)%nat /\ snd st = 8 - Z.of_nat (length p) /\ fst st = Z.of_N (bits2N (p ++ zeros (8 - length p))).
+
+Lemma bw_holds_iff buf cnt p :
+  bw_holds (buf, cnt) p <-> (length p < 8)%nat /\ cnt = 8 - Z.of_nat (length p) /\ buf = bval p * 2 ^ cnt.
+Proof.
+  unfold bw_holds. cbn [fst snd]. fold (bval (p ++ zeros (8 - length p))). rewrite bval_pad.
+  split; intros (Hl & Hc & Hb); (split; [exact Hl|]; split; [exact Hc|]); rewrite Hb, Hc; f_equal; f_equal; lia.
+Qed.
+
+Lemma bw_holds_empty : bw_holds (0, 8) [].
+Proof. apply bw_holds_iff. cbn [length]. rewrite bval_nil. repeat split; lia. Qed.
+
+(* ---------- writeBit ---------- *)
+Lemma pow2_m_cases m : 0 <= m <= 7 ->
+  (m = 0 /\ 2 ^ m = 1) \/ (m = 1 /\ 2 ^ m = 2) \/ (m = 2 /\ 2 ^ m = 4) \/ (m = 3 /\ 2 ^ m = 8) \/
+  (m = 4 /\ 2 ^ m = 16) \/ (m = 5 /\ 2 ^ m = 32) \/ (m = 6 /\ 2 ^ m = 64) \/ (m = 7 /\ 2 ^ m = 128).
+Proof.
+  intros H. assert (C : m = 0 \/ m = 1 \/ m = 2 \/ m = 3 \/ m = 4 \/ m = 5 \/ m = 6 \/ m = 7) by lia.
+  repeat (destruct C as [->|C]; [tauto|]). subst m. tauto.
+Qed.
+
+Lemma gen_bw_writeBit_arith v m b : 0 <= m <= 7 -> 0 <= v -> v * 2 ^ (m + 1) < 256 ->
+  gen_bw_writeBit (v * 2 ^ (m + 1), m + 1) b =
+    if m =? 0 then (tt, (0, 8), [(0, [2 * v + Z.b2z b])])
+    else (tt, ((2 * v + Z.b2z b) * 2 ^ m, m), []).
+Proof.
+  intros Hm Hv Hlt. unfold gen_bw_writeBit. replace (m + 1 - 1) with m by lia.
+  rewrite (wrap_u8_small m) by lia. rewrite Z.shiftl_1_l.
+  assert (H2 : 2 ^ (m + 1) = 2 * 2 ^ m) by (rewrite Z.pow_add_r by lia; change (2 ^ 1) with 2; lia).
+  assert (HX : 1 <= 2 ^ m <= 128) by (destruct (pow2_m_cases m Hm) as [C|C]; intuition lia).
+  assert (Hb : v * 2 ^ (m + 1) + 2 ^ m < 256).
+  { rewrite H2 in *. destruct (pow2_m_cases m Hm) as [C|C]; intuition lia. }
+  rewrite (wrap_u8_small (2 ^ m)) by lia.
+  rewrite lor_add by lia.
+  change ([] ++ ?x) with x.
+  destruct b; cbn [Z.b2z].
+  - rewrite (wrap_u8_small (v * 2 ^ (m + 1) + 2 ^ m)) by lia.
+    destruct (Z.eqb_spec m 0) as [->|Hne].
+    + change (2 ^ (0 + 1)) with 2. change (2 ^ 0) with 1.
+      replace (v * 2 + 1) with (2 * v + 1) by lia. reflexivity.
+    + replace (v * 2 ^ (m + 1) + 2 ^ m) with ((2 * v + 1) * 2 ^ m) by lia. reflexivity.
+  - destruct (Z.eqb_spec m 0) as [->|Hne].
+    + change (2 ^ (0 + 1)) with 2. replace (v * 2) with (2 * v + 0) by lia. reflexivity.
+    + replace (v * 2 ^ (m + 1)) with ((2 * v + 0) * 2 ^ m) by lia. reflexivity.
+Qed.
+
+(* what one operation does: from pending bits [p], appending the bits [bs] emits the complete bytes of p ++ bs
+   (the chunks cs, eight bits each) and leaves the remainder pending *)
+Definition bw_post (p bs : list bool) (st' : Z * Z) (o : list (Z * list Z)) : Prop :=
+  exists (cs : list (list bool)) (p' : list bool),
+    Forall (fun c => length c = 8%nat) cs /\
+    out_bytes o = map bits2N cs /\
+    p ++ bs = concat cs ++ p' /\
+    bw_holds st' p'.
+
+Lemma out_bytes_app a b : out_bytes (a ++ b) = out_bytes a ++ out_bytes b.
+Proof. apply flat_map_app. Qed.
+
+Lemma bw_post_nil st p : bw_holds st p -> bw_post p [] st [].
+Proof.
+  intros H. exists [], p. split; [constructor|]. split; [reflexivity|]. split; [apply app_nil_r|exact H].
+Qed.
+
+Lemma bw_post_trans p b1 b2 st1 st2 o1 o2 :
+  bw_post p b1 st1 o1 ->
+  (forall p1, bw_holds st1 p1 -> bw_post p1 b2 st2 o2) ->
+  bw_post p (b1 ++ b2) st2 (o1 ++ o2).
+Proof.
+  intros (cs1 & p1 & F1 & O1 & E1 & H1) Hn.
+  destruct (Hn p1 H1) as (cs2 & p2 & F2 & O2 & E2 & H2).
+  exists (cs1 ++ cs2), p2. split; [apply Forall_app; split; assumption|].
+  split; [rewrite out_bytes_app, O1, O2, map_app; reflexivity|].
+  split; [|exact H2].
+  rewrite app_assoc, E1, <- app_assoc, E2, concat_app, app_assoc. reflexivity.
+Qed.
+
+Theorem gen_bw_writeBit_spec : forall (st : Z * Z) (p : list bool) (b : bool),
+  bw_holds st p ->
+  exists st' o, gen_bw_writeBit st b = (tt, st', o) /\ bw_post p [b] st' o.
+Proof.
+  intros [buf cnt] p b H. apply bw_holds_iff in H. destruct H as (Hl & Hc & Hb).
+  pose proof (bval_range p) as Hr.
+  set (k := length p) in *. set (m := 7 - Z.of_nat k).
+  assert (Hcm : cnt = m + 1) by lia. clear Hc. subst cnt buf.
+  assert (Hlt : bval p * 2 ^ (m + 1) < 256).
+  { assert (E : 2 ^ Z.of_nat k * 2 ^ (m + 1) = 256).
+    { rewrite <- Z.pow_add_r by lia. replace (Z.of_nat k + (m + 1)) with 8 by lia. reflexivity. }
+    rewrite <- E. apply Z.mul_lt_mono_pos_r; [apply Z.pow_pos_nonneg; lia|lia]. }
+  rewrite gen_bw_writeBit_arith by lia.
+  assert (Hv : bval (p ++ [b]) = 2 * bval p + Z.b2z b) by apply bval_snoc.
+  destruct (Z.eqb_spec m 0) as [Hm|Hm].
+  - eexists _, _. split; [reflexivity|].
+    exists [p ++ [b]], []. split; [constructor; [rewrite app_length; cbn [length]; lia|constructor]|].
+    split; [cbn [out_bytes flat_map map app]; rewrite <- Hv, bval_to_N; reflexivity|].
+    split; [cbn [concat]; rewrite !app_nil_r; reflexivity|apply bw_holds_empty].
+  - eexists _, _. split; [reflexivity|].
+    exists [], (p ++ [b]). split; [constructor|]. split; [reflexivity|]. split; [reflexivity|].
+    apply bw_holds_iff. rewrite app_length. cbn [length]. rewrite Hv. repeat split; lia.
+Qed.
+Print Assumptions gen_bw_writeBit_spec.
+
+(* ---------- writeByte ---------- *)
+Lemma gen_bw_writeByte_arith v k y : 0 <= k <= 7 -> 0 <= v < 2 ^ k -> 0 <= y < 256 ->
+  gen_bw_writeByte (v * 2 ^ (8 - k), 8 - k) y =
+    (tt, ((y mod 2 ^ k) * 2 ^ (8 - k), 8 - k), [(0, [v * 2 ^ (8 - k) + y / 2 ^ k])]).
+Proof.
+  intros Hk Hv Hy. unfold gen_bw_writeByte. replace (8 - (8 - k)) with k by lia.
+  rewrite (wrap_u8_small k) by lia. rewrite Z.shiftr_div_pow2, Z.shiftl_mul_pow2 by lia.
+  assert (H8 : 2 ^ k * 2 ^ (8 - k) = 256).
+  { rewrite <- Z.pow_add_r by lia. replace (k + (8 - k)) with 8 by lia. reflexivity. }
+  set (X := 2 ^ k) in *. set (Y := 2 ^ (8 - k)) in *.
+  assert (HXY : (X = 1 /\ Y = 256) \/ (X = 2 /\ Y = 128) \/ (X = 4 /\ Y = 64) \/ (X = 8 /\ Y = 32) \/
+                (X = 16 /\ Y = 16) \/ (X = 32 /\ Y = 8) \/ (X = 64 /\ Y = 4) \/ (X = 128 /\ Y = 2)).
+  { destruct (pow2_m_cases k Hk) as [C|C]; fold X in C; intuition lia. }
+  assert (Hq : 0 <= y / X < Y) by (intuition (subst X Y; lia)).
+  rewrite (wrap_u8_small (y / X)) by lia.
+  pose proof (lor_add v (8 - k) (y / X)) as HL. fold Y in HL. rewrite HL by lia.
+  rewrite (wrap_u8_small (v * Y + y / X)) by (intuition lia).
+  replace (wrap_u8 (y * Y)) with (y mod X * Y); [reflexivity|].
+  unfold wrap_u8, wrap_u. change (2 ^ 8) with 256. intuition (subst X Y; lia).
+Qed.
+
+Lemma bw_post_compose p b1 b2 cs1 p1 o1 st2 o2 :
+  Forall (fun c => length c = 8%nat) cs1 -> out_bytes o1 = map bits2N cs1 -> p ++ b1 = concat cs1 ++ p1 ->
+  bw_post p1 b2 st2 o2 -> bw_post p (b1 ++ b2) st2 (o1 ++ o2).
+Proof.
+  intros F1 O1 E1 (cs2 & p2 & F2 & O2 & E2 & H2).
+  exists (cs1 ++ cs2), p2. split; [apply Forall_app; split; assumption|].
+  split; [rewrite out_bytes_app, O1, O2, map_app; reflexivity|].
+  split; [|exact H2].
+  rewrite app_assoc, E1, <- app_assoc, E2, concat_app, app_assoc. reflexivity.
+Qed.
+
+Lemma gen_bw_writeByte_spec st p c : bw_holds st p -> length c = 8%nat ->
+  exists st' o, gen_bw_writeByte st (bval c) = (tt, st', o) /\ bw_post p c st' o.
+Proof.
+  destruct st as [buf cnt]. intros H Hc. apply bw_holds_iff in H. destruct H as (Hl & Hcnt & Hb).
+  pose proof (bval_range p) as Hr. pose proof (bval_range c) as Hrc. rewrite Hc in Hrc. change (2 ^ Z.of_nat 8) with 256 in Hrc.
+  set (k := Z.of_nat (length p)) in *. subst cnt buf.
+  rewrite gen_bw_writeByte_arith by lia.
+  set (f := firstn (8 - length p) c). set (s := skipn (8 - length p) c).
+  assert (Hfs : c = f ++ s) by (symmetry; apply firstn_skipn).
+  assert (Hf : length f = (8 - length p)%nat) by (unfold f; rewrite firstn_length; lia).
+  assert (Hs : Z.of_nat (length s) = k) by (unfold s; rewrite skipn_length; lia).
+  assert (Hk : k = Z.of_nat (length p)) by reflexivity. clearbody k.
+  pose proof (bval_app f s) as Hv. rewrite <- Hfs, Hs in Hv.
+  pose proof (bval_range s) as Hrs. rewrite Hs in Hrs.
+  assert (Hq : bval c / 2 ^ k = bval f) by (symmetry; apply (Z.div_unique _ _ _ (bval s)); [left; lia|rewrite Hv; ring]).
+  assert (Hm : bval c mod 2 ^ k = bval s) by (symmetry; apply (Z.mod_unique _ _ (bval f)); [left; lia|rewrite Hv; ring]).
+  rewrite Hq, Hm.
+  eexists _, _. split; [reflexivity|].
+  exists [p ++ f], s. split; [constructor; [rewrite app_length; lia|constructor]|].
+  split.
+  - cbn [out_bytes flat_map map app]. rewrite <- bval_to_N, bval_app. replace (Z.of_nat (length f)) with (8 - k) by lia. reflexivity.
+  - split; [cbn [concat]; rewrite app_nil_r, <- app_assoc, <- Hfs; reflexivity|].
+    apply bw_holds_iff. repeat split; lia.
+Qed.
+
+(* ---------- the loops of writeBits, restated as standalone fixpoints with the generated bodies ---------- *)
+Fixpoint bw_loop2 (fuel__ : nat) (u64 nbits b_buffer b_count : Z) (ev_ : list (Z * list Z)) {struct fuel__} : unit * (Z * Z) * list (Z * list Z) :=
+     match fuel__ with
+     | O => ((tt, (b_buffer, b_count), ev_))
+     | S fuel_ => if (0 <? nbits) then (let '(_, (b_buffer, b_count), ev2_) := gen_bw_writeBit (b_buffer, b_count) ((wrap_u64 (Z.shiftr u64 63)) =? 1) in
+   let ev_ := ev_ ++ ev2_ in
+   ((let u64 := (wrap_u64 (Z.shiftl u64 1)) in
+   (let nbits := (wrap_i64 (nbits - 1)) in
+   bw_loop2 fuel_ u64 nbits b_buffer b_count ev_)))) else ((tt, (b_buffer, b_count), ev_))
+     end.
+
+Definition bw_loop1 (fuel2 : nat) : nat -> Z -> Z -> Z -> Z -> list (Z * list Z) -> unit * (Z * Z) * list (Z * list Z) :=
+  fix loop1_ (fuel__ : nat) (u64 nbits b_buffer b_count : Z) (ev_ : list (Z * list Z)) {struct fuel__} : unit * (Z * Z) * list (Z * list Z) :=
+     match fuel__ with
+     | O => bw_loop2 fuel2 u64 nbits b_buffer b_count ev_
+     | S fuel_ => if (8 <=? nbits) then (let byt := (wrap_u8 (wrap_u64 (Z.shiftr u64 56))) in
+   (let '(_, (b_buffer, b_count), ev2_) := gen_bw_writeByte (b_buffer, b_count) byt in
+   let ev_ := ev_ ++ ev2_ in
+   ((let u64 := (wrap_u64 (Z.shiftl u64 8)) in
+   (let nbits := (wrap_i64 (nbits - 8)) in
+   loop1_ fuel_ u64 nbits b_buffer b_count ev_))))) else bw_loop2 fuel2 u64 nbits b_buffer b_count ev_
+     end.
+
+(* the literal fuel is abstracted first, so that the kernel never has to unroll the loops to compare the two forms *)
+Definition wb_body : nat -> (Z * Z) -> Z -> Z -> unit * (Z * Z) * list (Z * list Z) :=
+  ltac:(let t := eval cbv delta [gen_bw_writeBits] in gen_bw_writeBits in
+        let t' := eval pattern 70%nat in t in
+        match t' with ?F _ => exact F end).
+
+Lemma wb_body_70 : gen_bw_writeBits = wb_body 70.
+Proof. exact eq_refl. Qed.
+
+Lemma wb_body_loops f buf cnt u n :
+  wb_body f (buf, cnt) u n = bw_loop1 f f (wrap_u64 (Z.shiftl u (wrap_u64 (64 - (wrap_u64 n))))) n buf cnt [].
+Proof. reflexivity. Qed.
+
+Lemma gen_bw_writeBits_loops buf cnt u n :
+  gen_bw_writeBits (buf, cnt) u n =
+  bw_loop1 70 70 (wrap_u64 (Z.shiftl u (wrap_u64 (64 - (wrap_u64 n))))) n buf cnt [].
+Proof. rewrite wb_body_70. apply wb_body_loops. Qed.
+
+Definition bw_floop (bit : bool) : nat -> Z -> Z -> list (Z * list Z) -> unit * (Z * Z) * list (Z * list Z) :=
+  fix loop1_ (fuel__ : nat) (b_buffer b_count : Z) (ev_ : list (Z * list Z)) {struct fuel__} : unit * (Z * Z) * list (Z * list Z) :=
+     match fuel__ with
+     | O => ((tt, (b_buffer, b_count), ev_))
+     | S fuel_ => if (negb (b_count =? 8)) then (let '(_, (b_buffer, b_count), ev2_) := gen_bw_writeBit (b_buffer, b_count) bit in
+   let ev_ := ev_ ++ ev2_ in
+   (loop1_ fuel_ b_buffer b_count ev_)) else ((tt, (b_buffer, b_count), ev_))
+     end.
+
+Definition fl_body : nat -> (Z * Z) -> bool -> unit * (Z * Z) * list (Z * list Z) :=
+  ltac:(let t := eval cbv delta [gen_bw_flush] in gen_bw_flush in
+        let t' := eval pattern 10%nat in t in
+        match t' with ?F _ => exact F end).
+
+Lemma fl_body_10 : gen_bw_flush = fl_body 10.
+Proof. exact eq_refl. Qed.
+
+Lemma fl_body_loop f buf cnt bit : fl_body f (buf, cnt) bit = bw_floop bit f buf cnt [].
+Proof. reflexivity. Qed.
+
+Lemma gen_bw_flush_loop buf cnt bit : gen_bw_flush (buf, cnt) bit = bw_floop bit 10 buf cnt [].
+Proof. rewrite fl_body_10. apply fl_body_loop. Qed.
+
+(* ---------- one step of each loop, in arithmetic ---------- *)
+Lemma top_split (v n t : Z) : 0 <= n <= t -> 0 <= v < 2 ^ n ->
+  0 <= v * 2 ^ (t - n) < 2 ^ t.
+Proof.
+  intros Hn Hv. assert (HB : 0 < 2 ^ (t - n)) by (apply Z.pow_pos_nonneg; lia).
+  assert (E : 2 ^ n * 2 ^ (t - n) = 2 ^ t) by (rewrite <- Z.pow_add_r by lia; f_equal; lia).
+  rewrite <- E. split; [apply Z.mul_nonneg_nonneg; lia|apply Z.mul_lt_mono_pos_r; lia].
+Qed.
+
+Lemma top_bit b L w : (length L <= 63)%nat ->
+  w = bval (b :: L) * 2 ^ (64 - Z.of_nat (length (b :: L))) ->
+  (wrap_u64 (Z.shiftr w 63) =? 1) = b /\
+  wrap_u64 (Z.shiftl w 1) = bval L * 2 ^ (64 - Z.of_nat (length L)).
+Proof.
+  intros Hn Hw. rewrite bval_cons in Hw. cbn [length] in Hw.
+  set (n := Z.of_nat (length L)) in *.
+  replace (64 - Z.of_nat (S (length L))) with (63 - n) in Hw by lia.
+  pose proof (bval_range L) as Hv. fold n in Hv.
+  pose proof (top_split (bval L) n 63 ltac:(lia) Hv) as HR.
+  assert (E1 : 2 ^ n * 2 ^ (63 - n) = 2 ^ 63) by (rewrite <- Z.pow_add_r by lia; f_equal; lia).
+  assert (E2 : 2 ^ (64 - n) = 2 * 2 ^ (63 - n)).
+  { replace (64 - n) with (1 + (63 - n)) by lia. rewrite Z.pow_add_r by lia. reflexivity. }
+  rewrite E2. replace (bval L * (2 * 2 ^ (63 - n))) with (2 * (bval L * 2 ^ (63 - n))) by ring.
+  set (R := bval L * 2 ^ (63 - n)) in *.
+  assert (Hw' : w = Z.b2z b * 2 ^ 63 + R) by (rewrite Hw, <- E1; unfold R; ring).
+  clearbody R. clear Hw E1 E2.
+  rewrite Z.shiftr_div_pow2, Z.shiftl_mul_pow2 by lia. unfold wrap_u64, wrap_u.
+  change (2 ^ 63) with 9223372036854775808 in *. change (2 ^ 64) with 18446744073709551616.
+  change (2 ^ 1) with 2.
+  split.
+  - destruct b; cbn [Z.b2z] in Hw'; [apply Z.eqb_eq|apply Z.eqb_neq]; lia.
+  - destruct b; cbn [Z.b2z] in Hw'; lia.
+Qed.
+
+Lemma top_byte c L w : length c = 8%nat -> (length L <= 56)%nat ->
+  w = bval (c ++ L) * 2 ^ (64 - Z.of_nat (length (c ++ L))) ->
+  wrap_u8 (wrap_u64 (Z.shiftr w 56)) = bval c /\
+  wrap_u64 (Z.shiftl w 8) = bval L * 2 ^ (64 - Z.of_nat (length L)).
+Proof.
+  intros Hc Hn Hw. rewrite bval_app, app_length, Hc in Hw.
+  set (n := Z.of_nat (length L)) in *.
+  replace (64 - Z.of_nat (8 + length L)) with (56 - n) in Hw by lia.
+  pose proof (bval_range L) as Hv. fold n in Hv.
+  pose proof (bval_range c) as Hvc. rewrite Hc in Hvc. change (2 ^ Z.of_nat 8) with 256 in Hvc.
+  pose proof (top_split (bval L) n 56 ltac:(lia) Hv) as HR.
+  assert (E1 : 2 ^ n * 2 ^ (56 - n) = 2 ^ 56) by (rewrite <- Z.pow_add_r by lia; f_equal; lia).
+  assert (E2 : 2 ^ (64 - n) = 256 * 2 ^ (56 - n)).
+  { replace (64 - n) with (8 + (56 - n)) by lia. rewrite Z.pow_add_r by lia. reflexivity. }
+  rewrite E2. replace (bval L * (256 * 2 ^ (56 - n))) with (256 * (bval L * 2 ^ (56 - n))) by ring.
+  set (R := bval L * 2 ^ (56 - n)) in *. set (y := bval c) in *.
+  assert (Hw' : w = y * 2 ^ 56 + R) by (rewrite Hw, <- E1; unfold R; ring).
+  clearbody R y. clear Hw E1 E2.
+  rewrite Z.shiftr_div_pow2, Z.shiftl_mul_pow2 by lia. unfold wrap_u8, wrap_u64, wrap_u.
+  change (2 ^ 56) with 72057594037927936 in *. change (2 ^ 64) with 18446744073709551616.
+  change (2 ^ 8) with 256.
+  split; lia.
+Qed.
+
+(* ---------- the bit loop of writeBits ---------- *)
+Lemma bw_loop2_S f w n b c ev :
+  bw_loop2 (S f) w n b c ev =
+  if 0 <? n
+  then (let '(_, (b', c'), o) := gen_bw_writeBit (b, c) (wrap_u64 (Z.shiftr w 63) =? 1) in
+        bw_loop2 f (wrap_u64 (Z.shiftl w 1)) (wrap_i64 (n - 1)) b' c' (ev ++ o))
+  else (tt, (b, c), ev).
+Proof. reflexivity. Qed.
+
+Lemma bw_loop2_spec : forall fuel L w buf cnt ev p,
+  (length L <= fuel)%nat -> (length L <= 64)%nat ->
+  w = bval L * 2 ^ (64 - Z.of_nat (length L)) ->
+  bw_holds (buf, cnt) p ->
+  exists st' o, bw_loop2 fuel w (Z.of_nat (length L)) buf cnt ev = (tt, st', ev ++ o) /\ bw_post p L st' o.
+Proof.
+  induction fuel as [|f IH]; intros L w buf cnt ev p Hf H64 Hw Hh.
+  - destruct L as [|b L]; [|cbn [length] in Hf; lia].
+    exists (buf, cnt), []. split; [rewrite app_nil_r; reflexivity|apply bw_post_nil; exact Hh].
+  - rewrite bw_loop2_S. destruct L as [|b L].
+    + change (0 <? Z.of_nat (length (@nil bool))) with false. cbv iota.
+      exists (buf, cnt), []. split; [rewrite app_nil_r; reflexivity|apply bw_post_nil; exact Hh].
+    + assert (Hpos : (0 <? Z.of_nat (length (b :: L))) = true) by (apply Z.ltb_lt; cbn [length]; lia).
+      rewrite Hpos. cbv iota.
+      cbn [length] in Hf, H64.
+      destruct (top_bit b L w ltac:(lia) Hw) as (Hbit & Hsh). rewrite Hbit, Hsh.
+      destruct (gen_bw_writeBit_spec (buf, cnt) p b Hh) as ([b1 c1] & o1 & E1 & P1).
+      rewrite E1. cbv iota beta.
+      rewrite wrap_i64_small by (cbn [length]; lia).
+      replace (Z.of_nat (length (b :: L)) - 1) with (Z.of_nat (length L)) by (cbn [length]; lia).
+      destruct P1 as (cs1 & p1 & F1 & O1 & E1' & H1).
+      destruct (IH L (bval L * 2 ^ (64 - Z.of_nat (length L))) b1 c1 (ev ++ o1) p1
+                  ltac:(lia) ltac:(lia) eq_refl H1) as (st' & o' & E2 & P2).
+      exists st', (o1 ++ o'). split; [rewrite E2, app_assoc; reflexivity|].
+      change (b :: L) with ([b] ++ L). eapply bw_post_compose; eassumption.
+Qed.
+
+(* ---------- the byte loop of writeBits ---------- *)
+Lemma bw_loop1_O f2 w n b c ev : bw_loop1 f2 O w n b c ev = bw_loop2 f2 w n b c ev.
+Proof. reflexivity. Qed.
+
+Lemma bw_loop1_S f2 f w n b c ev :
+  bw_loop1 f2 (S f) w n b c ev =
+  if 8 <=? n
+  then (let '(_, (b', c'), o) := gen_bw_writeByte (b, c) (wrap_u8 (wrap_u64 (Z.shiftr w 56))) in
+        bw_loop1 f2 f (wrap_u64 (Z.shiftl w 8)) (wrap_i64 (n - 8)) b' c' (ev ++ o))
+  else bw_loop2 f2 w n b c ev.
+Proof. reflexivity. Qed.
+
+Lemma bw_loop1_spec f2 : forall fuel L w buf cnt ev p,
+  (length L < 8 * S fuel)%nat -> (length L <= 64)%nat -> (64 <= f2)%nat ->
+  w = bval L * 2 ^ (64 - Z.of_nat (length L)) ->
+  bw_holds (buf, cnt) p ->
+  exists st' o, bw_loop1 f2 fuel w (Z.of_nat (length L)) buf cnt ev = (tt, st', ev ++ o) /\ bw_post p L st' o.
+Proof.
+  induction fuel as [|f IH]; intros L w buf cnt ev p Hf H64 Hf2 Hw Hh.
+  - rewrite bw_loop1_O. apply bw_loop2_spec; try assumption; lia.
+  - rewrite bw_loop1_S. destruct (Z.leb_spec 8 (Z.of_nat (length L))) as [Hge|Hlt].
+    + set (c := firstn 8 L). set (L' := skipn 8 L).
+      assert (HL : L = c ++ L') by (symmetry; apply firstn_skipn).
+      assert (Hc : length c = 8%nat) by (unfold c; rewrite firstn_length; lia).
+      assert (HL' : length L = (8 + length L')%nat) by (rewrite HL at 1; rewrite app_length, Hc; reflexivity).
+      clearbody c L'. subst L.
+      destruct (top_byte c L' w Hc ltac:(lia) Hw) as (Hbyte & Hsh). rewrite Hbyte, Hsh.
+      destruct (gen_bw_writeByte_spec (buf, cnt) p c Hh Hc) as ([b1 c1] & o1 & E1 & P1).
+      rewrite E1. cbv iota beta.
+      rewrite wrap_i64_small by lia.
+      replace (Z.of_nat (length (c ++ L')) - 8) with (Z.of_nat (length L')) by lia.
+      destruct P1 as (cs1 & p1 & F1 & O1 & E1' & H1).
+      destruct (IH L' (bval L' * 2 ^ (64 - Z.of_nat (length L'))) b1 c1 (ev ++ o1) p1
+                  ltac:(lia) ltac:(lia) Hf2 eq_refl H1) as (st' & o' & E2 & P2).
+      exists st', (o1 ++ o'). split; [rewrite E2, app_assoc; reflexivity|].
+      eapply bw_post_compose; eassumption.
+    + apply bw_loop2_spec; try assumption; lia.
+Qed.
+
+Theorem gen_bw_writeBits_spec : forall (st : Z * Z) (p : list bool) (u n : Z),
+  bw_holds st p -> 0 <= u < 2 ^ 64 -> 0 <= n <= 64 ->
+  exists st' o, gen_bw_writeBits st u n = (tt, st', o) /\ bw_post p (zbits (Z.to_nat n) u) st' o.
+Proof.
+  intros [buf cnt] p u n Hh Hu Hn. rewrite gen_bw_writeBits_loops.
+  set (L := zbits (Z.to_nat n) u).
+  assert (HL : Z.of_nat (length L) = n) by (unfold L; rewrite zbits_length; lia).
+  assert (Hw : wrap_u64 (Z.shiftl u (wrap_u64 (64 - wrap_u64 n))) = bval L * 2 ^ (64 - Z.of_nat (length L))).
+  { rewrite HL. rewrite (wrap_u64_small n) by lia. rewrite (wrap_u64_small (64 - n)) by lia.
+    rewrite Z.shiftl_mul_pow2 by lia. unfold L. rewrite bval_zbits. rewrite Z2Nat.id by lia.
+    unfold wrap_u64, wrap_u.
+    assert (E : 2 ^ 64 = 2 ^ n * 2 ^ (64 - n)) by (rewrite <- Z.pow_add_r by lia; f_equal; lia).
+    rewrite E. apply Z.mul_mod_distr_r; apply Z.pow_nonzero; lia. }
+  rewrite Hw, <- HL.
+  destruct (bw_loop1_spec 70 70 L _ buf cnt [] p ltac:(lia) ltac:(lia) ltac:(lia) eq_refl Hh)
+    as (st' & o & E & P).
+  exists st', o. split; [exact E|exact P].
+Qed.
+Print Assumptions gen_bw_writeBits_spec.
+
+(* ---------- flush ---------- *)
+Lemma bw_floop_O bit b c ev : bw_floop bit O b c ev = (tt, (b, c), ev).
+Proof. reflexivity. Qed.
+
+Lemma bw_floop_S bit f b c ev :
+  bw_floop bit (S f) b c ev =
+  if negb (c =? 8)
+  then (let '(_, (b', c'), o) := gen_bw_writeBit (b, c) bit in bw_floop bit f b' c' (ev ++ o))
+  else (tt, (b, c), ev).
+Proof. reflexivity. Qed.
+
+Lemma bw_floop_empty bit f b ev : bw_floop bit f b 8 ev = (tt, (b, 8), ev).
+Proof. destruct f; [apply bw_floop_O|]. rewrite bw_floop_S. reflexivity. Qed.
+
+Lemma bw_floop_pad : forall fuel v m ev, 0 <= m <= 6 -> (Z.to_nat m < fuel)%nat -> 0 <= v -> v * 2 ^ (m + 1) < 256 ->
+  bw_floop false fuel (v * 2 ^ (m + 1)) (m + 1) ev = (tt, (0, 8), ev ++ [(0, [v * 2 ^ (m + 1)])]).
+Proof.
+  induction fuel as [|f IH]; intros v m ev Hm Hf Hv Hlt; [lia|].
+  rewrite bw_floop_S.
+  assert (Hne : negb (m + 1 =? 8) = true) by (apply negb_true_iff, Z.eqb_neq; lia).
+  rewrite Hne. cbv iota. rewrite gen_bw_writeBit_arith by lia.
+  assert (H2 : 2 ^ (m + 1) = 2 * 2 ^ m) by (rewrite Z.pow_add_r by lia; change (2 ^ 1) with 2; lia).
+  cbn [Z.b2z]. destruct (Z.eqb_spec m 0) as [Hm0|Hm0]; cbv iota beta.
+  - rewrite bw_floop_empty. subst m. change (2 ^ (0 + 1)) with 2.
+    replace (2 * v + 0) with (v * 2) by lia. reflexivity.
+  - replace m with ((m - 1) + 1) at 1 2 by lia.
+    rewrite IH; [|lia|lia|lia|replace (m - 1 + 1) with m by lia; lia].
+    replace (m - 1 + 1) with m by lia.
+    replace ((2 * v + 0) * 2 ^ m) with (v * 2 ^ (m + 1)) by lia. rewrite app_nil_r. reflexivity.
+Qed.
+
+Theorem gen_bw_flush_spec : forall (st : Z * Z) (p : list bool),
+  bw_holds st p ->
+  gen_bw_flush st false =
+    (tt, (0, 8), match p with [] => [] | _ => [(0, [Z.of_N (bits2N (p ++ zeros (8 - length p)))])] end).
+Proof.
+  intros [buf cnt] p H. rewrite gen_bw_flush_loop.
+  fold (bval (p ++ zeros (8 - length p))). rewrite bval_pad.
+  apply bw_holds_iff in H. destruct H as (Hl & Hc & Hb).
+  destruct p as [|b p].
+  - cbn [length] in Hc. rewrite bval_nil in Hb. subst cnt buf.
+    change (0 * 2 ^ (8 - Z.of_nat 0)) with 0. change (8 - Z.of_nat 0) with 8. apply bw_floop_empty.
+  - cbv match. set (q := b :: p) in *. assert (Hq : (1 <= length q)%nat) by (unfold q; cbn [length]; lia).
+    pose proof (bval_range q) as Hr. clearbody q.
+    set (m := 7 - Z.of_nat (length q)).
+    assert (Hcm : cnt = m + 1) by lia. clear Hc. subst cnt buf.
+    replace (Z.of_nat (8 - length q)) with (m + 1) by lia.
+    assert (Hlt : bval q * 2 ^ (m + 1) < 256).
+    { assert (E : 2 ^ Z.of_nat (length q) * 2 ^ (m + 1) = 256).
+      { rewrite <- Z.pow_add_r by lia. replace (Z.of_nat (length q) + (m + 1)) with 8 by lia. reflexivity. }
+      rewrite <- E. apply Z.mul_lt_mono_pos_r; [apply Z.pow_pos_nonneg; lia|lia]. }
+    rewrite bw_floop_pad by lia. reflexivity.
+Qed.
+Print Assumptions gen_bw_flush_spec.
+
+(* ---------- runs of events ---------- *)
+Lemma ev_wf_cases e : ev_wf e ->
+  (exists b, (b = 0 \/ b = 1) /\ e = (0, [b])) \/
+  (exists u n, (0 <= u < 2 ^ 64 /\ 0 <= n <= 64) /\ e = (1, [u; n])).
+Proof.
+  destruct e as [t a]. unfold ev_wf.
+  destruct t as [|t|t]; [|destruct t as [t|t|]|]; try contradiction.
+  - destruct a as [|b [|b' a]]; try contradiction. intros H. left. exists b. split; [exact H|reflexivity].
+  - destruct a as [|u [|n [|x a]]]; try contradiction. intros H. right. exists u, n. split; [exact H|reflexivity].
+Qed.
+
+Lemma bw_event_post st p e : ev_wf e -> bw_holds st p ->
+  bw_post p (ev_bits e) (fst (bw_event st e)) (snd (bw_event st e)).
+Proof.
+  intros Hwf Hh. destruct (ev_wf_cases e Hwf) as [(b & Hb & ->)|(u & n & (Hu & Hn) & ->)].
+  - change (ev_bits (0, [b])) with [negb (b =? 0)].
+    change (bw_event st (0, [b])) with (let '(_, st', evs) := gen_bw_writeBit st (negb (b =? 0)) in (st', evs)).
+    destruct (gen_bw_writeBit_spec st p (negb (b =? 0)) Hh) as (st' & o & E & P).
+    rewrite E. exact P.
+  - change (ev_bits (1, [u; n])) with (zbits (Z.to_nat n) u).
+    change (bw_event st (1, [u; n])) with (let '(_, st', evs) := gen_bw_writeBits st u n in (st', evs)).
+    destruct (gen_bw_writeBits_spec st p u n Hh Hu Hn) as (st' & o & E & P).
+    rewrite E. exact P.
+Qed.
+
+Lemma bw_run_post : forall evs st p, Forall ev_wf evs -> bw_holds st p ->
+  bw_post p (evs_bits evs) (fst (bw_run st evs)) (snd (bw_run st evs)).
+Proof.
+  induction evs as [|e evs IH]; intros st p Hwf Hh.
+  - apply bw_post_nil. exact Hh.
+  - inversion Hwf as [|? ? He Hr]; subst.
+    cbn [bw_run fst snd]. change (evs_bits (e :: evs)) with (ev_bits e ++ evs_bits evs).
+    eapply bw_post_trans; [apply bw_event_post; eassumption|].
+    intros p1 H1. apply IH; assumption.
+Qed.
+
+Lemma bw_run_app : forall a b st,
+  bw_run st (a ++ b) =
+  (fst (bw_run (fst (bw_run st a)) b), snd (bw_run st a) ++ snd (bw_run (fst (bw_run st a)) b)).
+Proof.
+  induction a as [|e a IH]; intros b st.
+  - cbn [app bw_run fst snd]. destruct (bw_run st b); reflexivity.
+  - cbn [app bw_run fst snd]. rewrite IH. cbn [fst snd]. rewrite app_assoc. reflexivity.
+Qed.
+
+Theorem gen_bitwriter_is_pack : forall evs : list (Z * list Z),
+  Forall ev_wf evs ->
+  out_bytes (snd (bw_run (0, 8) (evs ++ [(2, [0])]))) = pack (evs_bits evs).
+Proof.
+  intros evs Hwf. rewrite bw_run_app. cbn [snd]. rewrite out_bytes_app.
+  destruct (bw_run_post evs (0, 8) [] Hwf bw_holds_empty) as (cs & p' & F & O & E & H).
+  cbn [app] in E. rewrite E, O, pack_chunks by exact F. f_equal.
+  set (st1 := fst (bw_run (0, 8) evs)) in *.
+  change (bw_run st1 [(2, [0])]) with
+    (let so := (let '(_, st', evs) := gen_bw_flush st1 false in (st', evs)) in (fst so, snd so ++ [])).
+  rewrite (gen_bw_flush_spec st1 p' H). cbn [fst snd]. rewrite app_nil_r.
+  destruct H as (Hl & _ & _). rewrite pack_short by exact Hl.
+  destruct p' as [|b p']; [reflexivity|].
+  cbn [out_bytes flat_map app]. rewrite N2Z.id. reflexivity.
+Qed.
+Print Assumptions gen_bitwriter_is_pack.
